@@ -184,5 +184,9 @@ func (dist *BinomialDistribution) ImportConfig(config ConfigDistribution, t Scal
 
 func (dist *BinomialDistribution) ExportConfig() ConfigDistribution {
 
-  return NewConfigDistribution("scalar:binomial distribution", dist.GetParameters())
+  // theta is stored on log-scale, ImportConfig expects a probability
+  parameters := dist.GetParameters()
+  parameters.At(0).Exp(parameters.At(0))
+
+  return NewConfigDistribution("scalar:binomial distribution", parameters)
 }
